@@ -15,7 +15,11 @@ EXPLANATION = (
     "and keeps Err rows for propagation. (R13.3) populate_bindings_term inserts a binding only on the None arm of a lookup "
     "of the same map, and on the Some arm returns Err unless Term::eq holds (variables and blank-node placeholders). "
     "(R13.5) the DISTINCT key has one positional component per projected variable. (R13.6) GRAPH ?g evaluates the inner "
-    "pattern under a binding in which ?g is already bound to the graph name it restricts to. (R13.4) panic audit of the "
+    "pattern under a binding in which ?g is already bound to the graph name it restricts to. (R13.7) `||` and `&&` are "
+    "three-valued: in their arms of ArcExpression::eval the second operand is evaluated on every path from the first (an error "
+    "of one operand cannot pre-empt the other). (R13.8) no Result of the evaluator or of the dataset is swallowed in the "
+    "evaluator core and in eval (an Err must surface as an error of the query; value-conversion attempts excepted). (R13.9) an "
+    "evaluation error (None of eval()/is_truthy()) is never turned into a value by unwrap_or & co. (R13.4) panic audit of the "
     "evaluator core. NOT decided: equality with the algebra's multiset semantics (join order, duplicates), and the "
     "function library / numeric tower (listed, not armed).")
 
@@ -364,8 +368,89 @@ def graph_rule(ck, facts):
         ck.bad("R13.6", "R13.6@graph_rec#prebinding", msg, "%s:%s" % (t["file"], t["line"]))
 
 
+SWALLOWERS = r"Option::<T>::(unwrap_or|unwrap_or_default|unwrap_or_else|is_some|is_none|map_or|map_or_else|is_some_and|is_none_or|ok_or|ok_or_else)$"
+EVALS = r"expression::ArcExpression::eval$|expression::EvalResult::is_truthy$"
+VALUE_ATTEMPTS = r"str>::parse$|convert::TryFrom::try_from$|convert::TryInto::try_into$|^sophia_iri::Iri(Ref)?::<T>::new$|^sophia_api::term::(BnodeId|LanguageTag|VarName)::<T>::new$"
+
+
+def error_semantics_rule(ck, facts):
+    """R13.7-R13.9: SPARQL's error semantics in ArcExpression::eval and the evaluator core.
+    (R13.7) `||` and `&&` are three-valued: an error of one operand must not pre-empt the other operand, so in their arms
+    the evaluation of the second operand is reached on every path from the first (no early return in between).
+    (R13.8) no Result of the evaluator or of the dataset is swallowed (an Err must surface as an error of the query).
+    (R13.9) an evaluation error (None of eval / is_truthy) is never turned into a value by unwrap_or & co."""
+    import errflow
+    fn = find_one(ck, facts, "R13.7", r"expression::ArcExpression::eval$", "ArcExpression::eval")
+    if fn is None:
+        return
+    sw = [(bi, b["t"]) for bi, b in enumerate(fn.blocks) if b["t"]["t"] == "switch"
+          and (b["t"].get("variants") or {}).get("enum", "").endswith("expression::ArcExpression")]
+    if len(sw) != 1:
+        ck.bad("R13.7", "R13.7@eval#switch", "expected one match on ArcExpression in eval (found %d)" % len(sw), fn.loc)
+        return
+    names = sw[0][1]["variants"]["names"]
+    arm = {names[v]: tb for v, tb in sw[0][1]["vals"] if v in names}
+    for op in ("Or", "And"):
+        if op not in arm:
+            ck.bad("R13.7", "R13.7@eval#%s-arm" % op, "no arm for %s in eval" % op, fn.loc)
+            continue
+        region = fn.reachable(arm[op])
+        evs = [(bi, t) for bi, t in fn.calls() if bi in region and call_name_matches(t, r"expression::ArcExpression::eval$")]
+        # the arm's own two evaluations: those that dominate... keep the calls not reachable from another arm's target
+        others = set()
+        for n2, tb in arm.items():
+            if n2 != op:
+                others |= fn.reachable(tb)
+        evs = [(bi, t) for bi, t in evs if bi not in others]
+        if len(evs) != 2:
+            ck.bad("R13.7", "R13.7@eval#%s-operands" % op, "expected the two operand evaluations in the %s arm (found %d)" % (op, len(evs)), fn.loc)
+            continue
+        first, second = (evs[0], evs[1]) if fn.dominates(evs[0][0], evs[1][0]) else (evs[1], evs[0])
+        escape = [r for r in fn.ret_blocks() if r in fn.reachable(first[1]["to"], avoid={second[0]})]
+        if escape:
+            ck.bad("R13.7", "R13.7@eval#%s-error-preempts" % op,
+                   "in the %s arm the function can return after evaluating the first operand without evaluating the second "
+                   "(an error of one operand pre-empts the other): SPARQL defines error || true = true and error && false = false, "
+                   "so FILTER(?unbound || true) must keep the solution" % op, "%s:%s" % (first[1]["file"], first[1]["line"]))
+        else:
+            ck.ok("R13.7", "%s: both operands are evaluated before the three-valued table is applied" % op)
+    # R13.9
+    n = 0
+    for f in facts.with_closures(fn):
+        for bi, t in f.calls():
+            if call_name_matches(t, SWALLOWERS) and t["args"]:
+                src = comes_from_call(f, t["args"][0], EVALS)
+                if src:
+                    n += 1
+                    ck.bad("R13.9", "R13.9@eval#%s:%s" % (t["f"]["name"].split("::")[-1], src[1]["f"]["name"].split("::")[-1]),
+                           "an evaluation error (None of %s) is turned into a value by %s: SPARQL errors propagate (e.g. IF with "
+                           "an erroneous condition is an error, not its else branch)" % (src[1]["f"]["name"].split("::")[-1], t["f"]["name"].split("::")[-1]),
+                           "%s:%s" % (t["file"], t["line"]))
+    if not n:
+        ck.ok("R13.9", "eval: no evaluation error is converted into a value (unwrap_or & co. never applied to eval()/is_truthy())")
+    # R13.8
+    scope = [f for f in facts.fns.values() if f.crate == "sophia_sparql" and re.search(CORE_FILES + r"|sparql/src/expression\.rs$", f.file)]
+    results = 0
+    for f in sorted(scope, key=lambda x: x.id):
+        for bi, t in f.calls():
+            if len(t["dest"]) == 1 and errflow.err_type(f.locals[t["dest"][0]]["ty"]) not in (None, "std::convert::Infallible", "!", "()"):
+                results += 1
+        for bi, t, how in errflow.dropped_results(f):
+            callee = t["f"].get("name") or "?"
+            et = errflow.err_type(f.locals[t["dest"][0]]["ty"])
+            if et == "()" or re.search(VALUE_ATTEMPTS, callee):
+                continue
+            root = f if f.kind != "Closure" else facts.fns.get(f.root, f)
+            ck.bad("R13.8", "R13.8@%s#%s" % (root.name, callee.split("::")[-1]),
+                   "the Result of %s is %s: an error of the evaluator (NotImplemented for an unsupported pattern, a dataset error) "
+                   "is swallowed and the query answers as if nothing had happened" % (callee, how), "%s:%s" % (t["file"], t["line"]))
+    ck.ok("R13.8", "Result-producing calls of the evaluator core analysed", "%d calls in %d functions" % (results, len(scope)), calls=results)
+    ck.floor("R13.8", "Result-producing calls in the evaluator core", results, 20)
+
+
 def run(ck, facts, tier):
     facts.require_crates(["sophia_sparql"])
+    error_semantics_rule(ck, facts)
     select_rule(ck, facts)
     query_rule(ck, facts)
     filter_rule(ck, facts)
